@@ -85,6 +85,18 @@ def direct_cases():
             out.append(([('define', 'f', [], [('repeat', ('all', 'M', None), [('return', num(5))]),
                                               ('return', num(6))]),
                          ('repeat', ('in', items, 'L', w), [P(('call', 'f', [])), P(v('L'))])], pop))
+        # return from inside two nested loops, the outer one over lights with names left, called
+        # from a loop over other names and from inside an expression
+        for w in (None, ('from', 'x', num(0), num(100))):
+            names = [s['label'] for s in pop] or ['ghost']
+            items = [('light', ('str', names[0])), ('light', ('str', names[-1])), ('light', ('str', 'zz'))]
+            out.append(([('define', 'deep', ['k'],
+                          [('repeat', ('all', 'M', None),
+                            [('repeat', ('count', num(3)),
+                              [('if', ('expr', ('bin', '>', v('k'), num(0))), [('return', v('k'))], None)])]),
+                           ('return', num(0))]),
+                         ('repeat', ('in', items, 'L', w), [P(('call', 'deep', [num(2)])), P(v('L'))]),
+                         P(('expr', ('bin', '+', num(100), ('call', 'deep', [num(2)]))))], pop))
         # while re-tests before every pass; break ends only the innermost loop
         out.append(([('assign', 'y', num(0)),
                      ('repeat', ('while', ('expr', ('bin', '<', v('y'), num(4))), 'y'),
